@@ -26,6 +26,19 @@ META = {
 CONTAINER_KEYS = {'list', 'tuple', 'set', 'dict'}
 
 
+def _in_predicate(par, node):
+    """node is (part of a boolean combination that is) a branch test, or the value a predicate function returns"""
+    cur = node
+    while True:
+        p = par.get(id(cur))
+        if isinstance(p, ast.BoolOp) or (isinstance(p, ast.UnaryOp) and isinstance(p.op, ast.Not)):
+            cur = p
+            continue
+        if isinstance(p, (ast.If, ast.While, ast.IfExp)):
+            return p.test is cur
+        return isinstance(p, ast.Return)
+
+
 def run(repo, rep):
     rep.explanation = ('R-USE closed use (C10.a), R-LIN count arithmetic and slice (C10.b), None normalisation (C10.c), '
                        'notice placement and propagation (C10.d), all container loops truncated (C10.e).')
@@ -58,6 +71,15 @@ def run(repo, rep):
                 use = 'N < len(x)'
             elif op in ('is', 'is not') and src(r_) == 'None':
                 use = 'None test'
+        if use is None and isinstance(p, ast.Compare) and _in_predicate(par, p) and \
+                all(x is node or isinstance(x, ast.Constant) or src(x) in ('sys.maxsize', 'maxsize') for x in [p.left] + list(p.comparators)):
+            # a sanity test of the setting against constants (0 <= N <= sys.maxsize) that only selects a branch: which elements a
+            # branch shows is decided on the printers (C10.b, C10.e), not here
+            use = 'range test against constants'
+        elif use is None and isinstance(p, ast.Call) and call_name(p) in ('type', 'isinstance') and p.args and p.args[0] is node:
+            use = 'type test'
+        elif use is not None:
+            pass
         elif isinstance(p, ast.BinOp) and isinstance(p.op, ast.Sub) and p.right is node \
                 and isinstance(p.left, ast.Call) and call_name(p.left) == 'len':
             guarded = any(_is_len_gt(ff.test, ff.pol, src(p.left), src(node)) for ff in g.of(p))
